@@ -305,6 +305,24 @@ func (p *Proc) conversion(ec *ectx, v Val, to types.Type, n ast.Node) Val {
 		ec.st.assume(Imp(And(Le(IntLit(0), v.T), Lt(v.T, IntLit(128))), And(Eq(StrLen(s), IntLit(1)), Eq(StrAt(s, IntLit(0)), v.T))))
 		return Val{T: s, Typ: to}
 	}
+	// named struct to named struct with identical underlying type: field by field
+	if fs, ok := from.Underlying().(*types.Struct); ok {
+		if tstr, ok := to.Underlying().(*types.Struct); ok && types.Identical(fs, tstr) && !opaqueStruct(from) && !opaqueStruct(to) {
+			fn, tn := p.ctx.structName(from), p.ctx.structName(to)
+			p.ctx.structSort(from)
+			p.ctx.structSort(to)
+			var b strings.Builder
+			fmt.Fprintf(&b, "(mk_%s", tn)
+			for i := 0; i < fs.NumFields(); i++ {
+				fmt.Fprintf(&b, " (%s_%s %s)", fn, fs.Field(i).Name(), v.T.S)
+			}
+			b.WriteString(")")
+			if fs.NumFields() == 0 {
+				return Val{T: T("mk_"+tn, ts), Typ: to}
+			}
+			return Val{T: T(b.String(), ts), Typ: to}
+		}
+	}
 	p.failf(n, "unsupported conversion from %s to %s", from, to)
 	return Val{}
 }
